@@ -27,12 +27,17 @@ EXHAUSTIVE = {"quick": True, "thorough": True}
 
 def run_impl(case):
     try:
-        SF, classes = fsup.mk_section_file(case["secs"], io=case.get("io"))
+        binary = bool(case.get("binary"))
+        SF, classes = fsup.mk_section_file(case["secs"], io=case.get("io"), binary=binary)
         x = codec.dec_str(case["x"])
+        if binary:
+            # binary storage: the same content as bytes (one byte per character); the section family
+            # reads it line by line all the same, so the model of the text is the model of the bytes
+            x = x.encode("latin-1")
         f = fsup.read_text(SF, x, case.get("io"))
         cap = len(x) + len(case["secs"]) + 5
         elems = [fsup.enc_selem(e, classes) for e in fsup.capped(f.data, cap)]
-        return {"elems": elems, "written": codec.enc_str(fsup.write_text(f, case.get("io"), False, (f.data,) if case.get("query_in_write") else ()))}
+        return {"elems": elems, "written": codec.enc_str(fsup.as_text(fsup.write_text(f, case.get("io"), binary, (f.data,) if case.get("query_in_write") else ())))}
     except Exception as e:
         return codec.enc_exc(e)
 
@@ -104,7 +109,7 @@ def rand_sec(rng):
 def random_case(rng):
     secs = [rand_sec(rng) for _ in range(rng.randrange(0, 5))]
     lines = []
-    for _ in range(rng.randrange(0, 10)):
+    for _ in range(fsup.nlines(rng, 10)):
         r = rng.random()
         if r < 0.4:
             l = rng.choice(["", " ", "x "]) + rng.choice(c12.MARKS) + rng.choice(["", " 1", "END"])
@@ -117,7 +122,13 @@ def random_case(rng):
     if x and rng.random() < 0.35:
         x = x[:-1]
     case = {"secs": secs}
-    if rng.random() < 0.2 and x:
+    if rng.random() < 0.2:
+        # binary storage (bytes content, one byte per character; through memory or a path)
+        case["binary"] = True
+        x = x.encode("latin-1", "replace").decode("latin-1")
+        if rng.random() < 0.25:
+            case["io"] = {"enc": "utf-8"}
+    elif rng.random() < 0.2 and x:
         for _ in range(rng.randrange(1, 4)):  # lone carriage returns (in memory only "\n" ends a line)
             i = rng.randrange(len(x))
             x = x[:i] + "\r" + x[i:]
